@@ -129,7 +129,8 @@ func runC02(r resIface, c *c02case, ks *rdbgen.KeySpec, rng *prng.R, entries []*
 	var expireAt uint64
 	switch c.Expiry {
 	case "future":
-		expireAt = uint64(nowMs + int64(shift/time.Millisecond) + int64(rng.Range(3, 40))*86400000 + int64(rng.Intn(1000)))
+		days := rng.Pick(rng.Range(3, 40), rng.Range(3, 40), 60, 400, 7300) // remaining ms below and above 2^31 and 2^32, up to 20 years
+		expireAt = uint64(nowMs + int64(shift/time.Millisecond) + int64(days)*86400000 + int64(rng.Intn(1000)))
 	case "past":
 		expireAt = uint64(nowMs + int64(shift/time.Millisecond) - int64(rng.Range(1, 40))*86400000)
 	}
